@@ -215,6 +215,7 @@ int vh_views = 0;
  * library itself does with the quadrants of a matrix), and some windows are windows of windows */
 static __thread mzd_t *shared_parent = NULL;
 static __thread int shared_slotw = 0, shared_rows = 0, shared_r0 = 0, shared_used = 0;
+int vh_force_w0 = -1;   /* >= 0: the next windows start at exactly this word offset (sweeps over row alignments) */
 void vh_mk_reset(void) { shared_parent = NULL; shared_used = 0; }
 
 mzd_t *vh_mk(rci_t m, rci_t n, int force) {
@@ -232,6 +233,12 @@ mzd_t *vh_mk(rci_t m, rci_t n, int force) {
     return vh_win(shared_parent, rr, c0, rr + m, c0 + n);
   }
   int r0 = r0s[vh_randint(0, 3)], w0 = w0s[vh_randint(0, 4)];
+  if (vh_force_w0 >= 0) {
+    /* plain window at a prescribed word offset inside a parent that continues to the right */
+    mzd_t *P0 = vh_new(r0 + m + 1, vh_force_w0 * 64 + n + 70);
+    vh_fill_dense(P0);
+    return vh_win(P0, r0, vh_force_w0 * 64, r0 + m, vh_force_w0 * 64 + n);
+  }
   int below = vh_randint(0, 2) ? vh_randint(1, 3) : 0;
   int right = xr[vh_randint(0, 6)];
   if (!shared_parent && vh_randint(0, 3) == 0 && (long)m * n < 90000) {
